@@ -2,6 +2,12 @@
 and the signature function that labels a failing case for known_findings.jsonl."""
 
 PROPS = {
+    'C15': {
+        'families': [('c15', 40, 400)],
+        'rule': 'random DAGs (dag-cbor nodes with raw leaves, shared subtrees, repeated links, depth 1-3; go-merkledag ProtoNode DAGs with repeated roots for WriteCar) x selectors {explore-all recursive, depth-limited, field path} x {AllowDuplicatePuts (link-visit-once off), data/index padding, index codec or none, link budget}; the REAL load sequence is recorded through an instrumented LinkSystem / NodeGetter and handed to the model, which must predict the bytes, the announced and returned sizes, the header fields and the callback offsets of NewSelectiveWriter.WriteTo, TraverseV1, TraverseToFile, SelectiveCar.Write/Prepare/Dump and WriteCar; distinct = distinct script text',
+        'trusted': ['go-ipld-prime selectors / traversal and go-merkledag Walk (the engine is a parameter: its load sequence is an input of the model)'],
+        'assumptions': ['block codecs consume their whole input (the counting pass counts bytes the decoder actually reads)'],
+    },
     'C08': {
         'families': [('c08', 40, 300, {'race': True})],
         'rule': 'per scenario one shared instance {blockstore.ReadWrite on a real file, storage.StorageCar on a concurrency-safe in-memory file, DeferredCarWriter for a path} x options; 2-8 goroutines (2-16 thorough) each issuing 10-40 random calls {Put, Has, Get, AllKeysChan drained, GetSize} over a shared block alphabet, built and run under the Go race detector (GORACE log inspected per scenario), with panic recovery and a deadlock timeout; the timestamped invocation/response history is checked for real-time consistency (a block whose Put returned is found by every later Has/Get with exact bytes; nothing is reported that was never put) and the finalized file is decoded (each distinct key once under de-duplication, all successful puts present); distinct = distinct script text (scenario parameters)',
@@ -154,6 +160,8 @@ def signature(pid, script, I, S):
         return 'C09/' + toks.get('ep', '?') + '-panic-alloc-or-class'
     if pid == 'C08':
         return 'C08/' + toks.get('api', '?') + '-concurrent-run-' + ('race' if 'race=1' in I else 'inconsistent')
+    if pid == 'C15':
+        return 'C15/' + toks.get('kind', '?') + '-output-or-size-differs'
     if pid == 'C20':
         return 'C20/' + fam + '-differs-from-lazy-direct-writer'
     if pid == 'C06':
